@@ -6,6 +6,7 @@ import (
 	"go/constant"
 	"go/token"
 	"go/types"
+	"sort"
 	"strings"
 
 	"golang.org/x/tools/go/ssa"
@@ -508,4 +509,94 @@ func structOf(n *types.Named) *types.Struct {
 	}
 	s, _ := n.Underlying().(*types.Struct)
 	return s
+}
+
+// reachPS is reach with a little path sensitivity: along one path, two branches that test the same SSA
+// value (if x / if !x / if x == nil ...) are taken consistently.  Blocks are revisited per assumption
+// set; the exploration is bounded.
+func reachPS(fn *ssa.Function, start ssa.Instruction, target, barrier func(ssa.Instruction) bool, ef edgeFilter) (ssa.Instruction, []*ssa.BasicBlock) {
+	if fn == nil || len(fn.Blocks) == 0 {
+		return nil, nil
+	}
+	type assume map[ssa.Value]bool // value -> "succ[0] condition holds" normalised to V's truthiness
+	type item struct {
+		b    *ssa.BasicBlock
+		i    int
+		as   string
+		amap map[ssa.Value]bool
+		prev int
+	}
+	keyOf := func(m map[ssa.Value]bool) string {
+		var ks []string
+		for v, t := range m {
+			ks = append(ks, v.Name()+"="+map[bool]string{true: "1", false: "0"}[t])
+		}
+		sort.Strings(ks)
+		return strings.Join(ks, ",")
+	}
+	var queue []item
+	seen := map[string]bool{}
+	if start == nil {
+		queue = append(queue, item{fn.Blocks[0], 0, "", map[ssa.Value]bool{}, -1})
+	} else {
+		p := posOfInstr(start)
+		queue = append(queue, item{p.b, p.i + 1, "", map[ssa.Value]bool{}, -1})
+	}
+	for qi := 0; qi < len(queue) && qi < 20000; qi++ {
+		it := queue[qi]
+		stopped := false
+		for i := it.i; i < len(it.b.Instrs); i++ {
+			in := it.b.Instrs[i]
+			if target != nil && target(in) {
+				var path []*ssa.BasicBlock
+				for k := qi; k >= 0; k = queue[k].prev {
+					path = append([]*ssa.BasicBlock{queue[k].b}, path...)
+				}
+				return in, path
+			}
+			if barrier != nil && barrier(in) {
+				stopped = true
+				break
+			}
+		}
+		if stopped {
+			continue
+		}
+		var ct condTest
+		haveCT := false
+		if n := len(it.b.Instrs); n > 0 {
+			if ifi, ok := it.b.Instrs[n-1].(*ssa.If); ok {
+				ct, haveCT = decodeIf(ifi)
+			}
+		}
+		for si, s := range it.b.Succs {
+			if ef != nil && !ef(it.b, si) {
+				continue
+			}
+			am := it.amap
+			if haveCT {
+				// truthiness of V on this edge: succ[0] <=> TrueWhen holds
+				pos := ct.TrueWhen == "true" || ct.TrueWhen == "nonnil"
+				truth := pos == (si == 0)
+				if prev, ok := it.amap[ct.V]; ok {
+					if prev != truth {
+						continue // inconsistent with an earlier test of the same value
+					}
+				} else {
+					am = map[ssa.Value]bool{}
+					for k, v := range it.amap {
+						am[k] = v
+					}
+					am[ct.V] = truth
+				}
+			}
+			k := s.String() + "|" + itoa(s.Index) + "|" + keyOf(am)
+			if seen[k] {
+				continue
+			}
+			seen[k] = true
+			queue = append(queue, item{s, 0, "", am, qi})
+		}
+	}
+	return nil, nil
 }
